@@ -98,6 +98,15 @@ def build(targets, timeout=1500, jobs=8):
     with Lock():
         refresh_makefile()
         rc, out = sh(["make", "-j%d" % jobs] + targets, timeout, cwd=COQ)
+        if rc != 0 and ("No rule to make target" in out or "No such file or directory" in out):
+            # the file set changed under us (stale dependency file): regenerate and retry once
+            for f in ("_CoqProject", ".Makefile.d"):
+                try:
+                    os.remove(os.path.join(COQ, f))
+                except OSError:
+                    pass
+            refresh_makefile()
+            rc, out = sh(["make", "-j%d" % jobs] + targets, timeout, cwd=COQ)
     return rc == 0, out
 
 
@@ -354,6 +363,13 @@ def main(prop_id, tier="quick", replay=None):
         n_coq = len(idx)
         t_coq = time.time() - t_coq
     fails = sorted(set(fails) | set(py_fail))
+    if os.environ.get("VERIF_DEBUG"):
+        for i in mism[:12]:
+            print("DEBUG mismatch", json.dumps(G.jsonable(pairs[i][0]), default=str)[:300], "->", json.dumps(G.jsonable(pairs[i][1]), default=str)[:200])
+        for i in fails[:12]:
+            print("DEBUG checkfail", json.dumps(G.jsonable(pairs[i][0]), default=str)[:300], "->", json.dumps(G.jsonable(pairs[i][1]), default=str)[:200])
+        if os.environ.get("VERIF_DEBUG") == "stop":
+            return 3
 
     known = [k for k in load_known() if k.get("property") == mod.ID and k.get("status") == "open"]
     sigf = getattr(mod, "signature", None)
